@@ -252,10 +252,25 @@ class Pair:
                         continue
                     if s["rv"]["k"] == "ref" and s["rv"].get("bk") == "mut" and s["rv"]["place"]["l"] == h and s["rv"]["place"]["p"] and not s["lhs"]["p"]:
                         refs.add(s["lhs"]["l"])
+                    elif s["rv"]["k"] == "ref" and s["rv"].get("bk") == "mut" and not s["lhs"]["p"] and len(s["rv"]["place"]["p"]) >= 2 and \
+                            s["rv"]["place"]["p"][0] == "*" and self._mut_alias_of(body, s["rv"]["place"]["l"]) == h:
+                        refs.add(s["lhs"]["l"])       # `&mut (*self_).field` where self_ is `&mut guard` (an inlined method of the guard)
                     elif s["lhs"]["l"] == h and s["lhs"]["p"] and s["rv"]["k"] in ("use", "agg") and self._arming_field(body, h, s["lhs"]["p"]):
                         disarmed.add(h)
                         h = None
                         break
+                if h is not None and k == "call":
+                    # `guard.release()`: a method of the guard type that takes / clears the arming field of `self`
+                    c1 = Call(g, bb, t)
+                    whole = set()
+                    for s_ in g.stmts(bb):
+                        if s_["k"] == "assign" and s_["rv"]["k"] == "ref" and s_["rv"].get("bk") == "mut" and s_["rv"]["place"]["l"] == h and not s_["rv"]["place"]["p"] and not s_["lhs"]["p"]:
+                            whole.add(s_["lhs"]["l"])
+                    if whole and any((a.get("move") or {}).get("l") in whole for a in c1.args) and self._callee_disarms(c1):
+                        disarmed.add(h)
+                        if c1.target is not None:
+                            dq.append((c1.target, None, path + (c1.target,)))
+                        continue
                 if h is not None and k == "call" and refs:
                     c0 = Call(g, bb, t)
                     if c0.name in ("take", "replace", "swap") and any((a.get("move") or {}).get("l") in refs for a in c0.args):
@@ -347,6 +362,60 @@ class Pair:
                     continue
                 dq.append((tgt, h, path + (tgt,)))
         return viol, transfers
+
+    def _mut_alias_of(self, body, local, depth=0):
+        """the local `&mut x` this single-assignment local stands for (through moves of the reference), else None"""
+        g = graph(body)
+        ds = g.defs.get(local, [])
+        if len(ds) != 1 or depth > 4:
+            return None
+        d = ds[0]
+        if d[3] != "assign" or d[4]:
+            return None
+        rv = d[5]
+        if rv["k"] == "ref" and rv.get("bk") == "mut" and not rv["place"]["p"]:
+            return rv["place"]["l"]
+        if rv["k"] == "ref" and rv.get("bk") == "mut" and rv["place"]["p"] == ["*"]:
+            return self._mut_alias_of(body, rv["place"]["l"], depth + 1)       # reborrow
+        if rv["k"] == "use":
+            src = rv["op"].get("move") or rv["op"].get("copy")
+            if src is not None and not src["p"]:
+                return self._mut_alias_of(body, src["l"], depth + 1)
+        return None
+
+    def _callee_disarms(self, c):
+        """the call resolves to a workspace method whose body takes / replaces / assigns an Option or bool field of
+        its `&mut self`: it makes the guard's destructor a no-op"""
+        for d in c.targets_def():
+            hb = self.facts.bodies.get(d)
+            if hb is None or hb.kind != "fn" or hb.arg_count < 1:
+                continue
+            t1 = hb.local_ty(1)
+            if t1.get("k") != "ref":
+                continue
+            inner = hb.types[t1["args"][0]]
+            if not self.is_guard_ty(inner, hb.types):
+                continue
+            hg = graph(hb)
+            for i, blk in enumerate(hb.blocks):
+                refs = set()
+                for s_ in blk["stmts"]:
+                    if s_["k"] != "assign":
+                        continue
+                    pl = s_["rv"].get("place") if s_["rv"]["k"] == "ref" else None
+                    if pl is not None and s_["rv"].get("bk") == "mut" and pl["l"] == 1 and len(pl["p"]) >= 2 and pl["p"][0] == "*":
+                        refs.add(s_["lhs"]["l"])
+                    lp = s_["lhs"]
+                    if lp["l"] == 1 and len(lp["p"]) >= 2 and lp["p"][0] == "*" and s_["rv"]["k"] in ("use", "agg"):
+                        last = lp["p"][-1]
+                        if isinstance(last, dict) and "n" in last:
+                            return True
+                t = blk["term"]
+                if t["k"] == "call" and refs:
+                    cc = Call(hg, i, t)
+                    if cc.name in ("take", "replace", "swap") and any((a.get("move") or {}).get("l") in refs for a in cc.args):
+                        return True
+        return False
 
     def _path_facts(self, body, path, interest):
         out = set()
